@@ -20,6 +20,7 @@ pub struct Scenario {
     pub phases: Vec<Vec<Vec<Value>>>,
     pub livelock: usize,
     pub max_steps: usize,
+    pub drop_yield: bool,
     pub raw: Value,
 }
 
@@ -49,6 +50,7 @@ impl Scenario {
             phases,
             livelock: v["livelock"].as_u64().unwrap_or(1500) as usize,
             max_steps: v["max_steps"].as_u64().unwrap_or(30000) as usize,
+            drop_yield: v["drop_yield"].as_bool().unwrap_or(false),
             raw: v.clone(),
         }
     }
@@ -580,6 +582,7 @@ pub fn run_opt(
     transparent_mm: bool,
 ) -> (RunResult, Option<Box<dyn Source>>) {
     let r = rt();
+    payload::DROP_YIELD.store(scn.drop_yield, std::sync::atomic::Ordering::Relaxed);
     {
         let mut st = r.lock();
         st.mm_addrs.clear();
